@@ -52,9 +52,14 @@ def handwritten_ssbscript() -> list[str]:
     places = ["start0", "mid0", "end0", "start1", "end1"]
     for k in range(0, 4):
         for sel in itertools.combinations(places, k):
-            for jumps in ([], ["Jump"], ["Branch", "Call"]):
+            for jumps in ([], ["Jump"], ["Branch", "Call"], ["EndJump"]):
                 lab = lambda p: "".join(f" @l_{p}; @m_{p};" if p in sel and len(sel) == 1 else (f" @l_{p};" if p in sel else ""))
                 tgts = [p for p in sel if not p.startswith("end")] or []
+                if jumps == ["EndJump"]:
+                    # jumps to labels at routine ends: the end of a non-last routine is the first op of the next one, a label behind the
+                    # last op of the whole script denotes no op (the compiler has to reject the jump, not emit a dangling target)
+                    tgts = [p for p in sel if p.startswith("end")]
+                    jumps = ["Jump", "Branch"] if tgts else []
                 js = ""
                 for i, j in enumerate(jumps):
                     if tgts:
